@@ -445,19 +445,34 @@ def rule_c13_r4(model: Model) -> RuleResult:
                 text, pos = nz.literal(a.ast, a)
                 if text.startswith('TRUTHY(') and 'conditions' in unparse(a.ast):
                     empty_edges.append((a.id, 'F' if pos else 'T'))
+        # path-sensitive in the size of the buffer: a path is followed with the sizes (1, 2, 3 = "more") that satisfy every size
+        # test on it; `if len(b) > 1: ... elif len(b) == 1: ...` leaves no size for the fall-through
         for rn in rets:
-            seen = {lp.id}
-            stack = [m for m in lp.edge('F')]
-            while stack:
-                x = stack.pop()
-                if x.id in seen or any(x is fl for fl in flush_nodes):
+            seen_states: t.Set[t.Tuple[int, t.FrozenSet[int]]] = set()
+            stack2: t.List[t.Tuple[Node, t.FrozenSet[int]]] = [(m, frozenset({1, 2, 3})) for m in lp.edge('F')]
+            reached = False
+            while stack2:
+                x, sizes = stack2.pop()
+                if (x.id, sizes) in seen_states or any(x is fl for fl in flush_nodes) or not sizes:
                     continue
-                seen.add(x.id)
+                seen_states.add((x.id, sizes))
+                if x is rn:
+                    reached = True
+                    break
+                lit = None
+                if x.kind == 'cond' and x.ast is not None:
+                    text, pos = nz.literal(x.ast, x)
+                    if _eval_len_literal(text, 1) is not None and ('conditions' in unparse(x.ast) or text.startswith('TRUTHY(ACC')):
+                        lit = (text, pos)
                 for (lb, y) in x.succ:
                     if (x.id, lb) in empty_edges:
                         continue
-                    stack.append(y)
-            if rn.id in seen:
+                    sz = sizes
+                    if lit is not None and lb in ('T', 'F'):
+                        want = (lb == 'T') == lit[1]
+                        sz = frozenset(n_ for n_ in sizes if _eval_len_literal(lit[0], n_) == want)
+                    stack2.append((y, sz))
+            if reached:
                 ok = False
         if ok:
             r.ok()
